@@ -8,7 +8,7 @@ import vlib
 
 TOGGLES = ["FixRcvErrRelease"]
 FAULTS = ["finish", "fail", "refuse", "abrupt", "reset", "half", "garbage", "junk", "oversized"]
-TRANSPORTS = ["tcp", "tls", "ws"]
+TRANSPORTS = ["tcp", "tls", "ws", "wss"]
 MOMENTS = ["idle", "midsend", "repeat"]
 MONITOR_CFG = ("SPECIFICATION Spec\nCONSTANTS\n  TraceFile = \"@TRACE@\"\n"
                "POSTCONDITION Consumed\nCHECK_DEADLOCK FALSE\n")
@@ -34,7 +34,7 @@ def run(tier, scratch, drv, only_cases=None):
         for rep in range(reps):
             for tr in TRANSPORTS:
                 for f in FAULTS:
-                    if tr == "ws" and f == "oversized":
+                    if tr in ("ws", "wss") and f == "oversized":
                         continue
                     if f == "refuse" and tr != "tcp":
                         continue   # the websocket transport has no read limit: a large envelope is no fault there
